@@ -259,13 +259,15 @@ def validate(b, vectors, bins):
 
 def classify(results):
     """split CBMC property results"""
-    out = {'witness_ok': [], 'witness_vacuous': [], 'internal': [], 'unwind': [], 'fail': [], 'ok': 0, 'total': 0}
+    out = {'witness_ok': [], 'witness_vacuous': [], 'internal': [], 'unwind': [], 'fail': [], 'unknown': [], 'ok': 0, 'total': 0}
     for r in results:
         d = r.get('description', ''); st = r.get('status'); out['total'] += 1
         if d.startswith('WITNESS:'):
             (out['witness_ok'] if st == 'FAILURE' else out['witness_vacuous']).append(r)
         elif st == 'SUCCESS':
             out['ok'] += 1
+        elif st != 'FAILURE':
+            out['unknown'].append(r)
         elif d.startswith('VX-INTERNAL:'):
             out['internal'].append(r)
         elif 'unwinding assertion' in d or r.get('property', '').find('.unwind.') >= 0:
